@@ -31,6 +31,20 @@ FINGERPRINTED = [
 ]
 
 
+FP_FILE = core.VERIF / "harness" / "c03_fingerprints.json"
+FP_SRC = "onnxscript/optimizer/_constant_folding.py"
+
+
+def fingerprint_drift() -> list[str]:
+    """Modelled functions of _constant_folding.py whose normalised AST differs from the recorded one.
+    Drift alone is not a broken tie; it multiplies the quick sample size."""
+    cur = core.source_fingerprint(FP_SRC, FINGERPRINTED)
+    if not FP_FILE.exists():
+        return []
+    rec = json.loads(FP_FILE.read_text())
+    return sorted(q for q in FINGERPRINTED if rec.get(q) != cur.get(q))
+
+
 # ----------------------------------------------------------------------------- model stream
 
 
@@ -362,6 +376,15 @@ def classify_c09n3(m, detail) -> bool:
     has = any(n.op_type == "Flatten" and n.input and by_out.get(n.input[0]) is not None and by_out[n.input[0]].op_type == "Reshape"
               for n in m.graph.node)
     return has and "/shape" in detail
+
+
+def w_c04d6():
+    w = nh.from_array(np.array([1.0, 2.0, 3.0], dtype=np.float32), "w")
+    return _model([h.make_node("Shape", ["w"], ["s"]), h.make_node("Add", ["x", "x"], ["y"])],
+                  [vi("x", TP.FLOAT, [3]), vi("w", TP.FLOAT, [3])], [vi("s", TP.INT64, [1]), vi("y", TP.FLOAT, [3])], [w]), None
+
+
+WITNESSES["C04-D6"] = (w_c04d6, "C04-D6")
 
 
 def load_corpus(name: str):
